@@ -6,9 +6,18 @@
    c18deps  : <hasDeps> <explicit> <implicit> <orderOnly> <depfile entries>    (comma separated keys, `.` = none; an entry `-` =
               a path that does not normalise)  -> the dependency list the engine stores after a successful execution:
               key/orderOnly … (`.` = empty)
-   infos are comma separated (`.` = none). -/
+   infos are comma separated (`.` = none).
+   c18world : the whole-build model (Model/NinjaWorld.lean) on one manifest + history per line:
+              <cmd>/<cmd>/… ; <targets> ; <op> <op> …       (paths, command names, hashes, content ids: numbers)
+              cmd = name:flags:hash:outs:exp:imp:oo:deps   flags ⊆ p(hony) r(estat) g(enerator) d(eps style) or `-`, lists comma separated
+              op  = w,p,cid (write, fresh stamp) | t,p (touch) | a,p,cid|-,stamp (write at a given stamp) | s,p,q (give p the stamp of q)
+                    | d,p (delete) | h,c,hash | f,c,0|1 (command c succeeds / fails) | b (build) | n (build with --no-db)
+              -> per build, separated by ` ; `:  R<commands executed, sorted> T<command tasks run, sorted> S<0|1 = build failed>
+                 D<name=X|F|S|U|P …> O<output=content id|- …> K<name=kind ordinal of the stored command value|- …>
+              (content ids are numbered in order of first appearance; `not-wf` if the manifest is not well formed) -/
 import LLBuild.Drv.Common
 import LLBuild.Model.NinjaBuild
+import LLBuild.Model.NinjaWorld
 
 namespace LLBuild.Drv.C18
 open LLBuild LLBuild.Drv LLBuild.NinjaBuild LLBuild.NinjaBuild.Gen
@@ -78,7 +87,112 @@ def stepDeps (line : String) : String :=
     if l.isEmpty then "." else " ".intercalate (l.map fun d => s!"{d.key}/{if d.orderOnly then 1 else 0}")
   | _ => "bad-op"
 
+/-! ### c18world -/
+namespace W
+open LLBuild.NinjaWorld
+
+def nats (s : String) : Option (List Nat) :=
+  if s == "." || s == "" then some [] else (s.splitOn ",").mapM String.toNat?
+
+/-- a command and its initial command hash -/
+def parseCmd (s : String) : Option (Command × Nat) :=
+  match s.splitOn ":" with
+  | [n, fl, h, outs, e, i, oo, deps] => do
+    let has (c : Char) : Bool := fl.toList.contains c
+    some ({ name := ← n.toNat?, outs := ← nats outs, exp := ← nats e, imp := ← nats i, oo := ← nats oo, deps := ← nats deps,
+            phony := has 'p', restat := has 'r', generator := has 'g', hasDeps := has 'd' }, ← h.toNat?)
+  | _ => none
+
+structure St where
+  m : Manifest
+  w : World
+  table : List Content := []      -- content ids, in order of first appearance
+  out : List String := []
+  bad : Bool := false
+
+def intern (t : List Content) (c : Content) : List Content × Nat :=
+  match t.findIdx? (· == c) with
+  | some i => (t, i)
+  | none => (t ++ [c], t.length)
+
+def didLetter : Did → String
+  | .executed => "X" | .failed => "F" | .skipped => "S" | .updated => "U" | .phony => "P"
+
+def insertSorted (x : Nat) : List Nat → List Nat
+  | [] => [x]
+  | y :: ys => if x ≤ y then x :: y :: ys else y :: insertSorted x ys
+
+def sortNats (l : List Nat) : List Nat := l.foldr insertSorted []
+
+def showList (l : List String) : String := if l.isEmpty then "." else ",".intercalate l
+
+def report (targets : List Path) (st : St) (nodb : Bool) : St :=
+  let w0 := if nodb then st.w.dropDb else st.w
+  let r := buildFull st.m targets w0
+  let w := r.1
+  let ran := sortNats ((runsOf r.2).map (·.name))
+  let tasks := sortNats (r.2.map (·.1))
+  let did := r.2.map fun e => s!"{e.1}={didLetter e.2}"
+  let outs := st.m.cmds.flatMap fun c => if c.phony then [] else c.outs
+  let (table, cs) := outs.foldl (fun (acc : List Content × List String) o =>
+      match w.content o with
+      | none => (acc.1, acc.2 ++ [s!"{o}=-"])
+      | some c => let (t, i) := intern acc.1 c; (t, acc.2 ++ [s!"{o}={i}"])) (st.table, [])
+  let kinds := st.m.cmds.map fun c => match w.cmdDb c.name with
+    | none => s!"{c.name}=-"
+    | some r => s!"{c.name}={r.value.kind.ordinal}"
+  let line := s!"R{showList (ran.map toString)} T{showList (tasks.map toString)} S{if buildFailed r.2 then 1 else 0} D{showList did} O{showList cs} K{showList kinds}"
+  { st with w := w, table := table, out := st.out ++ [line] }
+
+def applyOp (targets : List Path) (st : St) (op : String) : St :=
+  let ed (e : Edit) : St := { st with w := applyEdit st.w e }
+  match op.splitOn "," with
+  | ["b"] => report targets st false
+  | ["n"] => report targets st true
+  | ["w", p, c] => match p.toNat?, c.toNat? with
+    | some p, some c => ed (.write p [c])
+    | _, _ => { st with bad := true }
+  | ["t", p] => match p.toNat? with
+    | some p => ed (.touch p)
+    | _ => { st with bad := true }
+  | ["a", p, c, s] => match p.toNat?, s.toNat? with
+    | some p, some s => ed (.writeAt p (c.toNat?.map fun c => [c]) s)
+    | _, _ => { st with bad := true }
+  | ["s", p, q] => match p.toNat?, q.toNat? with       -- give `p` the stamp of `q`
+    | some p, some q => match st.w.files q with
+      | some f => ed (.writeAt p none f.stamp)
+      | none => st
+    | _, _ => { st with bad := true }
+  | ["d", p] => match p.toNat? with
+    | some p => ed (.delete p)
+    | _ => { st with bad := true }
+  | ["h", c, h] => match c.toNat?, h.toNat? with
+    | some c, some h => ed (.setHash c h)
+    | _, _ => { st with bad := true }
+  | ["f", c, b] => match c.toNat? with
+    | some c => ed (.setFail c (b == "1"))
+    | _ => { st with bad := true }
+  | _ => { st with bad := true }
+
+/-- `<cmd>/<cmd>/… ; <targets> ; <op> <op> …` -/
+def stepWorld (line : String) : String :=
+  match line.trimAscii.toString.splitOn " ; " with
+  | [cs, ts, ops] =>
+    match (cs.splitOn "/").mapM parseCmd, nats ts with
+    | some cmds, some targets =>
+      let m : Manifest := { cmds := cmds.map (·.1), sem := encSem }
+      if !decide m.WF then "not-wf" else
+      let w0 := cmds.foldl (fun w ch => applyEdit w (.setHash ch.1.name ch.2)) World.empty
+      let st := (ops.splitOn " ").foldl (applyOp targets) { m := m, w := w0 }
+      if st.bad then "bad-op" else " ; ".intercalate st.out
+    | _, _ => "bad-op"
+  | _ => "bad-op"
+
+end W
+
+
 def modes : List (String × Mode) :=
-  [("c18valid", lineLoop stepValid), ("c18decide", lineLoop stepDecide), ("c18deps", lineLoop stepDeps)]
+  [("c18valid", lineLoop stepValid), ("c18decide", lineLoop stepDecide), ("c18deps", lineLoop stepDeps),
+   ("c18world", lineLoop W.stepWorld)]
 
 end LLBuild.Drv.C18
